@@ -1,10 +1,13 @@
 import OV.Model.C01SExp
+import OV.Model.C01Sem
 import OV.Drivers.Loop
 /-! Line-protocol driver for C01 and C02 (one model).
     `C01 convert <func-sexp>`  → `ok <wf:true|false:why> <graph-sexp>` | `err <ExceptionClass>` | `bad-input`
     `C01 wf <graph-sexp>`      → `true` | `false <why>` | `bad-input`   (the verified checker `wfGraph`
                                   run on a graph parsed back from a proto of the real converter)
-    `C01 live <func-sexp>`     → live-in set of the function body (analysis tie) -/
+    `C01 live <func-sexp>`     → live-in set of the function body (analysis tie)
+    `C01 stable <func-sexp>`   → whether every liveness fixpoint of the model was reached within its fuel
+                                  (hypothesis of `liveness_sound`) -/
 namespace OV.Drivers.C01
 open OV.C01
 
@@ -27,6 +30,13 @@ def handle (args : List String) : String :=
       match decGraph e with
       | none => "bad-input"
       | some g => if wfGraph g then "true" else "false " ++ wfWhy g
+  | "stable" :: rest =>
+    match parseSExp (" ".intercalate rest) with
+    | none => "bad-input"
+    | some e =>
+      match decFunc e with
+      | none => "bad-input"
+      | some f => if stableBlock f.body [] then "true" else "false"
   | "live" :: rest =>
     match parseSExp (" ".intercalate rest) with
     | none => "bad-input"
